@@ -10,10 +10,11 @@ from ..tlaparse import to_json
 INVS = ['InstalledWhenStarted', 'NoTraceUntouched', 'RestoredExactly', 'ShutdownCompletes', 'QuietAfter']
 
 
-def mc_cfg(ur=False, ab=False, ka=False, so=False, ad=False, rn=False, ch=False, invs=INVS, calls=4,
+def mc_cfg(ur=False, ab=False, ka=False, so=False, ad=False, rn=False, ch=False, lh=False, invs=INVS, calls=4,
            props=('StoppedAfterShutdown', 'CallerHookUntouched')):
     return dict(constants=dict(NPlugins=2, MaxCalls=calls, UnconditionalRestore=ur, AbortOnFailure=ab, KeepsActing=ka,
-                               SaveOnce=so, AcceptsDuringDrain=ad, RestoreNeedsOwnThread=rn, ClobbersCallerHook=ch),
+                               SaveOnce=so, AcceptsDuringDrain=ad, RestoreNeedsOwnThread=rn, ClobbersCallerHook=ch,
+                               LeaksHooksOnFailedStart=lh),
                 invariants=invs, properties=list(props), deadlock=False)
 
 
@@ -25,6 +26,8 @@ def api_calls(walk):
     for (a, args, st) in walk[1:]:
         if a == 'Start':
             calls.append(('start', None, st))
+        elif a == 'StartFails':
+            calls.append(('start_fails', None, st))
         elif a == 'ShutdownBegin':
             if st['sdpc'] == 0:
                 calls.append(('shutdown', (set(), (False, False)), st))
@@ -80,6 +83,9 @@ def replay_walk(c, walk, wd, exc):
                                 time.sleep(0.01)
                         extra_thread = threading.Thread(target=worker)
                         extra_thread.start()
+                elif name == 'start_fails':
+                    if not sysm.start_fails():
+                        problems.append('start() with an unusable poll interval did not fail')
                 elif name == 'app_sets_hooks':
                     sysm.app_sets_hooks()
                 elif name == 'app_changes_hooks':
@@ -159,7 +165,7 @@ def run(c):
     r = c.mc('Lifecycle', mc_cfg(), label='2 plugins, 4 calls', dump=True,
              must_cover=['Start', 'ShutdownBegin', 'ShutdownStep', 'ShutdownMark'])
     for kw, inv in ((dict(ur=True), 'NoTraceUntouched'), (dict(ka=True), 'QuietAfter'), (dict(so=True), 'RestoredExactly'),
-                    (dict(ad=True), 'QuietAfter'), (dict(rn=True), 'RestoredExactly')):
+                    (dict(ad=True), 'QuietAfter'), (dict(rn=True), 'RestoredExactly'), (dict(lh=True), 'RestoredExactly')):
         c.mc_expect_violation('Lifecycle', mc_cfg(invs=[inv], props=(), **kw), 'deviation %s' % list(kw)[0], what=inv)
     c.mc_expect_violation('Lifecycle', mc_cfg(invs=[], ab=True), 'deviation AbortOnFailure',
                           what='StoppedAfterShutdown')
@@ -170,6 +176,7 @@ def run(c):
     # histories that are always replayed: the application installs hooks while the agent runs with tracing disabled;
     # a shutdown in which every step fails; start twice
     full = ['ShutdownBegin'] + ['ShutdownStep'] * 5 + ['ShutdownMark']
+    short_ = list(full)
     curated = []
     for nt in (True, False):
         for names in (['Start', 'AppSetsHooks'] + full if nt else ['Start', 'Start'] + full,
@@ -180,6 +187,11 @@ def run(c):
             curated += ws[:2]
             only2 = [w for w in ws if max([len(x[2]['failing']) for x in w]) == 1 and any(2 in x[2]['failing'] for x in w)]
             curated += only2[:1]
+    # a start that fails (then a normal life)
+    ws = core.walks_matching(r.graph, ['StartFails', 'Start'] + short_, init_filter=lambda st: not st['noTrace'], limit=50)
+    curated += ws[:1]
+    ws = core.walks_matching(r.graph, ['Start'] + short_ + ['StartFails'], init_filter=lambda st: not st['noTrace'] and st['preSys'] != 'None', limit=50)
+    curated += ws[:1]
     # a configuration arriving while shutdown drains; shutdown called from another thread than start
     ws = core.walks_matching(r.graph, ['Start'] + full + ['HostEventAfter'],
                              init_filter=lambda st: not st['noTrace'] and st['preThr'] != 'None', limit=20000)
